@@ -102,4 +102,35 @@ PROPS = {
                      'followerReplication struct literal re-stated in the hook VerifAddReplState', 'real-timer runs: 4 at a time, delay bound 2 x lease + 150 ms'],
         timeout={'quick': 900, 'thorough': 7200},
     ),
+    'C10': dict(
+        props_file='Props/C10.v',
+        components=['c10'],
+        comp_names={6: 'node sequences with a crash cut at every durable operation, restarted by the real NewRaft'},
+        rule='5 base sequences (append+commit, append+truncate, vote+electSelf, snapshot install ahead of / behind the log) x crash cut after each durable op of each event (and uncut) x store flavour '
+             '(plain, monotonic, commit-tracking + RestoreCommittedLogs) x TrailingLogs {0,2,100} x MaxAppendEntries {1,4} (quick: half sampled), each image restarted with the real NewRaft under a 2 s watchdog, then a '
+             'restart, a follower-timeout decision and a vote probe; plus images with 3/20/140 committed entries, 0-2 snapshots (newest unreadable) under RestoreCommittedLogs. Compared: returns/error/panic/blocks, trace of '
+             'store+FSM calls of NewRaft, full state. Monitor recomputes term, last log, latest configuration, coverage from the durable image. Non-trivial = a crash cut or panic happened',
+        assumptions=['stores: atomic calls; CommitTrackingLogStore contract (staged commit index durable with the next StoreLogs)', 'a NewRaft that does not return within 2 s counts as blocked'],
+        timeout={'quick': 900, 'thorough': 7200},
+    ),
+    'C02': dict(
+        props_file='Props/C02.v',
+        components=['c02'],
+        comp_names={6: 'node sequences (every FSM call is in the compared trace)', 1001: 'cluster churn histories', 1007: 'stale tail + snapshot + leader change + new follower', 1009: 'growing a single-voter cluster'},
+        rule='(i) the C10 crash/restart node sequences (FSM Apply/Restore/StoreConfiguration calls are part of the trace diffed against the model); (ii) real clusters: churn mix (partitions, crash cuts, restarts, snapshots, '
+             'transfers, duplicated/lost responses) and the snapshot + leader-change family with per-server TrailingLogs reload and a brand-new follower; monitors on every FSM call of every server: same entry at an index everywhere, '
+             'increasing without gap or repeat per instance, applied => durably on a voter majority at that instant. Non-trivial = history with a leader and an ack / sequence with crash cut',
+        assumptions=['cluster histories are sampled schedules', 'payload ids are unique per Apply call'],
+        timeout={'quick': 900, 'thorough': 7200},
+    ),
+    'C12': dict(
+        props_file='Props/C12.v',
+        components=['c12'],
+        comp_names={6: 'InstallSnapshot then AppendEntries on followers in enumerated stale/divergent/compacted states', 1007: 'stale tail + snapshot + leader change', 1008: 'convergence after a fault period (real timers)'},
+        rule='(i) follower log length 1..6 (stale term-2 tail or agreeing with the leader), snapshot index 2..7, both store kinds, TrailingLogs {0,1,100}: InstallSnapshot, the AppendEntries that follows it, a heartbeat, restart '
+             '(432 cases, exhaustive in both tiers), diffed against the model; monitor: after an installed snapshot the following AppendEntries is accepted. (ii) real clusters: family 7; family 8 = 200-500 ms of partitions/stops/snapshots '
+             'with 60 ms timers, then quiet: one leader, a write accepted and every member caught up within 20 election timeouts + 0.5 s, with an InstallSnapshot-repeat counter. Non-trivial: every case',
+        assumptions=['real-timer scenarios: 4 at a time; bound 20 x ElectionTimeout + 500 ms wall clock'],
+        timeout={'quick': 900, 'thorough': 7200},
+    ),
 }
